@@ -223,6 +223,47 @@ pub fn alt_iter<I: Iterator>(mk: impl Fn() -> I, cap: usize, f: impl Fn(I::Item)
         }
     }
     let (lo, hi) = mk().size_hint();
-    json!({"n": n, "nth": nth, "nth_end": nth_end, "nth_seq": nth_seq, "skip": skip, "step": step, "last": last,
+    // partly consumed by next(), the rest consumed by fold-based (for_each) and try_fold-based (try_for_each)
+    // adaptors; size_hint at that position; size_hint after an nth() beyond the end
+    let mut splits: Vec<usize> = if n <= 40 { (0..=n).collect() } else { vec![0, 1, 2, 16, 17, 18, 34, n / 2, n - 1, n] };
+    splits.retain(|k| *k <= n);
+    let part = |use_try: bool| -> Vec<Value> {
+        splits.iter().map(|&k| {
+            let mut it = mk();
+            for _ in 0..k { let _ = it.next(); }
+            let (plo, phi) = it.size_hint();
+            let st = std::cell::RefCell::new((0usize, None::<Value>, None::<Value>));
+            let eat = |x: I::Item| -> bool {
+                let mut g = st.borrow_mut();
+                if g.0 <= cap { let v = f(x); if g.0 == 0 { g.1 = Some(v.clone()); } g.2 = Some(v); }
+                g.0 += 1;
+                g.0 <= cap
+            };
+            if use_try {
+                let _ = it.try_for_each(|x| if eat(x) { Ok(()) } else { Err(()) });
+            } else {
+                it.take(cap + 1).for_each(|x| { eat(x); });
+            }
+            let (cnt, first, last) = st.into_inner();
+            json!([k, cnt, first.into_iter().collect::<Vec<_>>(), last.into_iter().collect::<Vec<_>>(), plo, phi.map(|h| h as i64).unwrap_or(-1)])
+        }).collect()
+    };
+    // fold on the iterator itself (not through take): bounded lists only
+    let fold: Vec<Value> = if n <= cap {
+        splits.iter().map(|&k| {
+            let mut it = mk();
+            for _ in 0..k { let _ = it.next(); }
+            let (cnt, first, last) = it.fold((0usize, None, None), |(c, fi, _la): (usize, Option<Value>, Option<Value>), x| {
+                let v = f(x);
+                (c + 1, if c == 0 { Some(v.clone()) } else { fi }, Some(v))
+            });
+            json!([k, cnt, first.into_iter().collect::<Vec<_>>(), last.into_iter().collect::<Vec<_>>(), 0, -1])
+        }).collect()
+    } else { vec![] };
+    let tryf = part(true);
+    let foreach = part(false);
+    let hint_end = { let mut it = mk(); let _ = it.nth(n + 1); let (l, h) = it.size_hint(); [l as i64, h.map(|h| h as i64).unwrap_or(-1)] };
+    let hint_end2 = { let mut it = mk().skip(n + 2); let _ = it.next(); let (l, h) = it.size_hint(); [l as i64, h.map(|h| h as i64).unwrap_or(-1)] };
+    json!({"fold": fold, "tryf": tryf, "foreach": foreach, "hint_end": hint_end, "hint_end2": hint_end2, "n": n, "nth": nth, "nth_end": nth_end, "nth_seq": nth_seq, "skip": skip, "step": step, "last": last,
            "a": a, "b": b, "hint": [lo, hi.map(|h| h as i64).unwrap_or(-1)]})
 }
